@@ -15,9 +15,14 @@
      downsampling.downsample_rand  -> limit_events (np.random.choice = oracle)
      RTDCBase.reset_filter         -> step Reset
 
-   [see_removed] selects the repaired diff (fixes_proposed/C03-*.diff): keys
-   that were present at the previous application and are gone now are also
-   reported as changed. [see_removed = false] is the code before the repair.
+   [see_removed] selects the repaired diff (fixes_proposed/
+   C03-removed-range-keys.diff, commit 1ad19c0): keys that were present at the
+   previous application and are gone now are also reported as changed.
+   [see_removed = false] is the code before that repair.
+   The ValueError for a range with only one of its two keys is raised before
+   any box filter is modified (fixes_proposed/
+   C03-valueerror-before-mutation.diff); [err] records that the last
+   operation raised.
 
    Arrays are [list bool] of one entry per event. Feature data are stored per
    event ([row]): the column of feature f is [col f]. A polygon's geometric
@@ -73,9 +78,6 @@ Definition dict_set {A} (k : Z) (v : A) (d : list (Z * A)) : list (Z * A) :=
   if has_key k d
   then map (fun e => if k =? fst e then (k, v) else e) d
   else d ++ [(k, v)].
-
-Definition dict_del {A} (k : Z) (d : list (Z * A)) : list (Z * A) :=
-  filter (fun e => negb (k =? fst e)) d.
 
 (* list.remove(x): first occurrence; (Python raises ValueError when absent,
    the list is unchanged) *)
